@@ -105,31 +105,13 @@ def alt_multiwalk(src):
     open(p, "w").write(s[:a] + new + s[b:])
 
 
-def alt_rawdigest(src):
-    """the incoming digest is verified over the bytes AS RECEIVED (digest octets zeroed in place) instead of over a
-    re-serialisation -- i.e. a repair of known finding reencoded_len_127; the KNOWN-FINDING line must disappear"""
-    rep(src + "/puresnmp/adt.py", "        return cls.from_sequence(message)  # type: ignore",
-        "        output = cls.from_sequence(message)  # type: ignore\n"
-        "        object.__setattr__(output, \"_raw\", bytes(data))\n"
-        "        return output")
-    old = ("    auth_method = auth.create(credentials.auth.method)\n"
-           "    without_digest = reset_digest(message)\n"
-           "    is_authentic = auth_method.authenticate_incoming_message(\n"
-           "        credentials.auth.key,\n"
-           "        bytes(without_digest),\n")
-    new = ("    auth_method = auth.create(credentials.auth.method)\n"
-           "    raw = getattr(message, \"_raw\", None)\n"
-           "    if raw is not None and len(security_params.auth_params) == 12 and raw.count(security_params.auth_params) == 1:\n"
-           "        zeroed = raw.replace(security_params.auth_params, b\"\\x00\" * 12, 1)\n"
-           "    else:\n"
-           "        zeroed = bytes(reset_digest(message))\n"
-           "    is_authentic = auth_method.authenticate_incoming_message(\n"
-           "        credentials.auth.key,\n"
-           "        zeroed,\n")
-    rep(src + "/puresnmp_plugins/security/usm.py", old, new)
+def alt_rooteq(src):
+    """walks never report an instance whose OID equals a requested root (the property accepts both behaviours)"""
+    rep(src + "/puresnmp/api/raw.py", "            if not any(containment) or varbind.oid in yielded:",
+        "            if not any(containment) or varbind.oid in yielded or varbind.oid in requested_oids:")
 
 
-ALTS = {"ids": alt_ids, "socket": alt_socket, "multiwalk": alt_multiwalk, "rawdigest": alt_rawdigest}
+ALTS = {"ids": alt_ids, "socket": alt_socket, "multiwalk": alt_multiwalk, "rooteq": alt_rooteq}
 
 
 def main():
